@@ -49,6 +49,38 @@ AB == {la, lb}
 Nodes_trace == {<<x>> : x \in AB \cup {ls}} \cup {<<x, y>> : x \in AB \cup {ls}, y \in AB}
                \cup {<<x, y, z>> : x \in AB \cup {ls}, y \in AB, z \in AB}
 TraceValsOf(t) == {1, 2, 3}
+\* ---- spellings.  The zone of the bindings is example. ; a name is handed to the
+\* API as labels \o apex labels, each label in one of its spellings
+ApexLabels == <<<<101, 120, 97, 109, 112, 108, 101>>>>                 \* example
+UpOctet(o) == IF o \in 97..122 THEN o - 32 ELSE o
+UpLabel(l) == [i \in 1..Len(l) |-> UpOctet(l[i])]
+MixLabel(l) == [i \in 1..Len(l) |-> IF i % 2 = 0 THEN UpOctet(l[i]) ELSE l[i]]
+ApexSpellings == <<ApexLabels, <<UpLabel(ApexLabels[1])>>, <<MixLabel(ApexLabels[1])>>>>   \* example EXAMPLE eXaMpLe
+\* relative name n with the labels selected by the bit mask m in upper case
+Bit(m, i) == (m \div (2 ^ (i - 1))) % 2 = 1
+SpellRel(n, m) == [i \in 1..Len(n) |-> IF Bit(m, i) THEN UpLabel(n[i]) ELSE n[i]]
+SpellAbs(n, m, a) == SpellRel(n, m) \o ApexSpellings[a]
+\* names outside the zone: other right-hand ends, the apex label in the wrong
+\* place, a proper prefix / extension of the apex label, the root
+lex == <<101, 120>>
+OutProbeSeq == <<<<>>, <<la>>, <<la, lb>>, <<ApexLabels[1], la>>, <<la, ApexLabels[1], lb>>,
+                <<SubSeq(ApexLabels[1], 1, 6)>>, <<la, ApexLabels[1] \o <<101>>>>,
+                <<la, <<120>> \o ApexLabels[1]>>, <<UpLabel(ApexLabels[1]), lex>>>>
+OutProbes == {OutProbeSeq[i] : i \in DOMAIN OutProbeSeq}
+\* prepare_name / the children maps against the declarative reading, for every
+\* spelling of the apex the zone may have been created with and every spelling
+\* of the name (a law of the operators: evaluated once, in the initial state)
+SpellNames == NodeNames \cup QNames \cup {Apex}
+SpellingLaw ==
+  (phase = "zonefile" /\ Cardinality(zf) = 1) =>
+    \A a \in 1..3 :
+      /\ \A n \in SpellNames : \A m \in 0..(2 ^ Len(n) - 1) : \A b \in 1..3 :
+            LET full == SpellAbs(n, m, b)
+                p == PrepareName(ApexSpellings[a], full)
+            IN /\ p.ok /\ InZoneAbs(ApexLabels, full)
+               /\ NodeKey(p.rel) = n /\ RelOf(ApexLabels, full) = n
+      /\ \A o \in OutProbes :
+            ~PrepareName(ApexSpellings[a], o).ok /\ ~InZoneAbs(ApexLabels, o)
 View == svars
 \* with the snapshot ghost in the fingerprint (invariants that read it)
 View9 == <<svars, snap>>
